@@ -273,6 +273,8 @@ def check_gap_in_range(repo, rep):
 
 
 def run(repo: Repo, rep, tier: str):
+    from vlib import memo
+    rep.guarded(memo.check, repo, rep, "C09-R8", [(POSITION, "Position")], "Position: liquidation / bankruptcy price, PnL")
     rep.exhaustive = True
     rep.assume("backtest mode; exact arithmetic; leverage in [1,125]")
     rep.guarded(check_formulas, repo, rep)
